@@ -393,7 +393,7 @@ def fill_cases(rnd, per_fn):
             if "zero" in fn:
                 out.append(case(fn, w, d, cnt, 0, 0, a))
             else:
-                out.append(case(fn, w, d, dmax, 0, 0, a, c=rnd.choice([0, 65, 255]), n=cnt))
+                out.append(case(fn, w, d, dmax, 0, 0, a, c=rnd.choice([0, 65, 255, 128, 129, 165, 254, 1, 127]), n=cnt))      # high-bit values: a byte spread over a word by shifts of a promoted int sign-extends
     return out
 
 
@@ -412,5 +412,5 @@ def cases(family, seed, tier):
     if family == "memcopy":
         return mem_cases(rnd, k)
     if family == "fill":
-        return fill_cases(rnd, k)
+        return fill_cases(rnd, k * 3)
     return []
